@@ -21,6 +21,9 @@ let print_events (buf : Buffer.t) (evs : Hal.hal list) (dc0 : bool option) (full
       let s = String.concat "," (L.rev_map (fun (d, a, b) ->
                   Printf.sprintf "%s%d*%d" (if d then "d" else "") a b) !sg) in
       Buffer.add_string buf (Printf.sprintf "Z %d %d %d %s" (Buffer.length run) !h1 !h2 s);
+      (let c = Buffer.contents run in
+       if String.length c > hexmax && String.for_all (fun x -> x = c.[0]) c then
+         Buffer.add_string buf (Printf.sprintf " u=%02x" (Char.code c.[0])));
       if full || Buffer.length run <= hexmax then begin
         Buffer.add_char buf ' ';
         String.iter (fun c -> Buffer.add_string buf (Printf.sprintf "%02x" (Char.code c))) (Buffer.contents run)
@@ -208,7 +211,7 @@ let parse_cases (path : string) : case list =
   L.rev !cases
 
 let feat_of_env () : Ops.feat =
-  let f = try Sys.getenv "EPD_FEAT" with Not_found -> "v3" in
+  let f = try Stdlib.Sys.getenv "EPD_FEAT" with Not_found -> "v3" in
   { Ops.f_v2 = (f = "v2"); Ops.f_alt = (f = "alt") }
 
 let color_name (panel : string) (c : int) : string =
@@ -246,7 +249,7 @@ let run_case (full : bool) (c : case) : unit =
       if c.scribble then scribble i;
       Buffer.add_string out (Printf.sprintf "op %d %s\n" i (L.hd t));
       if res = Run.CRDiverged then begin stop := true; Buffer.add_string out "= DIVERGED\n" end else begin
-      let t1 = Sys.time () in dc := print_events out evs !dc full; if Sys.getenv_opt "EPD_PROF" <> None then prerr_endline (Printf.sprintf "print %.3f" (Sys.time () -. t1));
+      let t1 = Stdlib.Sys.time () in dc := print_events out evs !dc full; if Stdlib.Sys.getenv_opt "EPD_PROF" <> None then prerr_endline (Printf.sprintf "print %.3f" (Stdlib.Sys.time () -. t1));
       Buffer.add_string out
         (match res with
          | Run.CROk Iface.RUnit -> "= OK\n"
@@ -263,10 +266,12 @@ let run_case (full : bool) (c : case) : unit =
   end
 
 let () =
-  match Array.to_list Sys.argv with
+  match Array.to_list Stdlib.Sys.argv with
   | _ :: "run" :: rest ->
       let full = L.mem "--full" rest in
       let path = L.nth rest (L.length rest - 1) in
       L.iter (run_case full) (parse_cases path)
   | _ :: "pure" :: rest when rest <> [] -> Pure.main (L.nth rest (L.length rest - 1))
-  | _ -> prerr_endline "usage: driver run [--full] <script> | driver pure <queryfile>"; exit 2
+  | [_; "oracle"; script; trace] ->
+      Orc.main parse_op bufs panel_of_string (feat_of_env ()) script trace
+  | _ -> prerr_endline "usage: driver run [--full] <script> | driver pure <queryfile> | driver oracle <script> <realtrace>"; exit 2
